@@ -46,6 +46,7 @@ func Open(path string) (*FreeList, error) {
 		return nil, err
 	}
 	if partial := fi.Size() % (types.OffBytesLen + types.SizeBytesLen); partial != 0 {
+		vhook.Point("fl.open.truncate")
 		if err = file.Truncate(fi.Size() - partial); err != nil {
 			file.Close()
 			return nil, err
